@@ -45,9 +45,12 @@ class HDF5OutputGroup(OutputGroup):
     @only_master_rank
     def write_string_array(self, string_name, string_array, metadata=None):
 
-        asciiList = [n.encode("ascii", "ignore") for n in string_array]
+        # utf-8 is what decode_string_array() reads back; widen the fixed
+        # width instead of silently cutting strings longer than 64 bytes
+        encoded = [n.encode("utf-8") for n in string_array]
+        width = max([64] + [len(n) for n in encoded])
         ds = self._entry.create_dataset(
-            str(string_name), (len(asciiList), 1), 'S64', asciiList)
+            str(string_name), (len(encoded), 1), 'S{}'.format(width), encoded)
 
         if metadata:
             for k, v in metadata.items():
